@@ -65,6 +65,7 @@ func ruleTables(c *Ctx) {
 		return
 	}
 	l := c.L
+	b.unescapeTable(l)
 	safe, n1, ok1 := b.boolTable(b.Codec, "safeSet")
 	html, n2, ok2 := b.boolTable(b.Codec, "htmlSafeSet")
 	key := "safeSet[b] ⇔ 0x20 ≤ b < 0x80 ∧ b ∉ {\", \\}"
